@@ -21,17 +21,27 @@ PROP = dict(
           "empty corpus); non-trivial = the first non-blank byte opens a container or a string; distinct by text hash. (b) grammar "
           "documents built by construction (rapidcheck in C++, Hypothesis in Python): arbitrary inter-token whitespace, all escapes incl. "
           "\\/ and \\u0000-\\u00ff in both hex cases, raw ASCII 0x20-0x7F, number forms -0, 0.5, 1e5, 1E+2, 5e-1, 1.25E-3, integers to "
-          "the int64 boundaries, integer parts of 1..25 digits for non-integers, exponents keeping the value within 1e-290..1e290, unique "
+          "the int64 boundaries, integer parts of 1..25 digits for non-integers, exponents keeping the value within 1e-290..1e290, "
+          "un-normalised mantissas (integer parts of up to 38 digits, 0.000..d with up to 35 leading zeros) whose exponent alone runs to "
+          "+-327 while the value stays within 1e-290..1e291 (random, and enumerated: 74 mantissa scales x 11 value scales), unique "
           "keys, empty containers anywhere, nesting up to 500; each with a generated suffix (reader extent), trailing whitespace and "
           "trailing garbage; plus documents with exactly one injected extension (trailing comma, hex integer, n/t/f, // comment); "
           "non-trivial = nesting >= 2 and a fraction/exponent numeral or an escape (every extension case counts). (c) every proper prefix "
           "and every single-byte delete/replace/insert over 28 structural bytes of 47 fixed documents and 21 fixed non-standard texts (complete) and of generated documents; "
-          "non-trivial = the base document is a container of >= 6 bytes. Distinct = distinct case encodings (hash)."),
+          "non-trivial = the base document is a container of >= 6 bytes. (d) streams: 2..24 texts (documents, proper prefixes, single-byte "
+          "edits, unstructured bytes; a third of the streams built from documents nested up to 500 deep) parsed one after the other on one "
+          "fresh thread, two thirds of the streams through the reader entry point only, the others with the string entry points mixed in; "
+          "enumerated: every proper prefix of the 47 fixed documents as one stream followed by the documents, and the prefixes of "
+          "documents nested 20/100/500 deep followed by valid documents; every text of a stream that is a standard document must be "
+          "accepted with the reference value and extent whatever was parsed or rejected before it; non-trivial = a standard document "
+          "is read after a rejected text. Distinct = distinct case encodings (hash)."),
     assumptions=["bracket nesting <= 500: inputs with more than 500 opening brackets are skipped and counted",
                  "numerals with an exponent of more than 3 digits are skipped and counted (outside the stated domain; they only make the scanner loop up to 2^31 times)",
                  "a document counts as 'standard-compliant inside the domain' when the reference reader accepts it and it has unique keys, no raw byte >= 0x80 in strings, "
                  "\\u escapes <= U+00FF, plain integers within int64, non-integers that are zero or within 1e-300..1e300 in magnitude, and at most 40 digits per numeral",
                  "non-integer numbers are compared to 1e-9 relative (phosg's scanner is not correctly rounded), integers exactly; an integer-valued numeral with an exponent may come back as int or float",
+                 "a stream case carries its whole prelude and runs on a fresh thread, so that it replays on its own; texts of a stream that are not standard documents "
+                 "are only checked for the exception type (their outcome is not compared with the outcome in isolation)",
                  "rejection = JSON::parse_error or std::out_of_range (both documented); which of the two is not asserted",
                  "non-standard texts that are not one of the four documented extensions (e.g. '-', '007', '1.', \\x41, raw control bytes in strings) are only required to be handled without crash or foreign exception type"],
     min_evaluations_quick=100000,
